@@ -24,7 +24,7 @@ CHECKS = {
         "technique": "Lean 4 proof (decision table of main; index bounds from C03/C07/C09) + exact text correspondence + binary-vs-model differential on generated texts",
     },
     "C17": {
-        "text": "Machine-checked proof (Lean 4) of why independent groups cannot influence each other: for request groups sharing no variables the assembled Jacobian is block diagonal and the residual a concatenation at every configuration, for any scalar type, with each group's rows depending only on that group's variables; over the reals the damped step of the union is exactly the pair of the groups' own steps, the union's residual test passes iff every group's does, and the union's step norm is the largest group norm; an Ok result never contains a non-finite value (the NaN cross-talk path named in the property is closed by the fix of F3).",
+        "text": "Machine-checked proof (Lean 4) of why independent groups cannot influence each other: for request groups sharing no variables the assembled Jacobian is block diagonal and the residual a concatenation at every configuration, for any scalar type, with each group's rows depending only on that group's variables; over the reals the damped step of the union is exactly the pair of the groups' own steps, the union's residual test passes iff every group's does, and the union's step norm is the largest group norm; lifted to the loop: while both groups keep iterating, the k-th iterate of the union is the concatenation of the groups' k-th iterates, the union returns at the residual test exactly when both groups do, and a group's new values never depend on the other group's variables (exact solvers satisfy the block hypothesis used); an Ok result never contains a non-finite value (the NaN cross-talk path named in the property is closed by the fix of F3).",
         "design_ref": "DESIGN.md §6 C17",
         "note": "Equality of returned values across different iteration counts is a convergence quantity: searched on the real code with unions of up to 200 groups, interleaved requests and shuffled numbering. F16 is a known finding.",
         "technique": "Lean 4 proof (append laws of the assembly; Mathlib block matrices) + trace-replay correspondence + union-vs-parts oracle on the real code",
@@ -36,7 +36,7 @@ CHECKS = {
         "technique": "Lean 4 + Mathlib proof (orthogonal diagonalisation of JtJ; list-level characterisation of calculate) + trace-replay correspondence with SVD certificate + independent null-space oracle",
     },
     "C02": {
-        "text": "Machine-checked proof (Lean 4): for every scalar type, each round of the model's loop is 'residual test, then the solver's step for the Jacobian and residual at the current point, then x + d, then the step test', and a start at an exact solution returns at once; over the reals (Mathlib) the damped step exists, is unique, is a descent direction and vanishes exactly at stationary points; on consistent linear systems no step moves away from any solution; and the abstract contraction argument: a 1/2-contraction towards x* on a ball containing the guess keeps every iterate in the ball, halves the error each round and never takes an iterate farther from the guess than 1.5 times the guess-to-x* distance (quadratic error reduction implies the hypothesis). With C13 (Jacobian = derivative for all 23 kinds) this is the whole logical content; convergence of the f64 iteration on a given system is searched on the real code, not proved.",
+        "text": "Machine-checked proof (Lean 4): for every scalar type, each round of the model's loop is 'residual test, then the solver's step for the Jacobian and residual at the current point, then x + d, then the step test', and a start at an exact solution returns at once; over the reals (Mathlib) the damped step exists, is unique, is a descent direction and vanishes exactly at stationary points; on consistent linear systems no step moves away from any solution; and the abstract contraction argument: a 1/2-contraction towards x* on a ball containing the guess keeps every iterate in the ball, halves the error each round and never takes an iterate farther from the guess than 1.5 times the guess-to-x* distance (quadratic error reduction implies the hypothesis). and the link from derivative information to that hypothesis: if the error map is differentiable at x* with a Jacobian whose smallest singular value squared exceeds lambda, the exact damped Gauss-Newton iteration halves the error every round on a ball around x* and never leaves the 1.5x bound (gauss_newton_local_C02). With C13 (Jacobian = derivative for all 23 kinds) this is the whole logical content; convergence of the f64 iteration on a given system is searched on the real code, not proved.",
         "design_ref": "DESIGN.md §6 C02",
         "note": "Partial by nature: the property is about floating-point Newton convergence. The planted-solution oracle on the real code is the property's own quantifier; F15 (rare >1.5x landings on under-determined systems) is a known finding.",
         "technique": "Lean 4 proof (loop anatomy by case analysis; Mathlib linear algebra for the step; induction for the contraction bound) + kernel/trace correspondence with step certificate + planted-solution oracle on the real code",
@@ -60,7 +60,7 @@ CHECKS = {
         "technique": "Lean 4 proof by induction on the iteration cap (fuel monotonicity) + trace-replay correspondence + cap-sweep oracle on the real code",
     },
     "C01": {
-        "text": "Machine-checked proof (Lean 4, every scalar type) that the unsatisfied list of a successful result is exactly the list of caller positions of the attempted requests whose own error measure fails the EPSILON threshold at the returned coordinates; what each error measure means geometrically is NOT proved: it is checked against an independent geometric specification of all 23 kinds (written from the documented meaning, not from the kernels) on the real solver.",
+        "text": "Machine-checked proof (Lean 4, every scalar type) that the unsatisfied list of a successful result is exactly the list of caller positions of the attempted requests whose own error measure fails the EPSILON threshold at the returned coordinates; what each error measure means geometrically is proved over the reals for all 23 kinds (each live component equals the documented geometric quantity, with its scale factor and sign; 'satisfied' iff that quantity is within EPSILON; zero iff the exact geometric predicate), against a coordinate vocabulary written independently of the kernels, with the guard cases stated explicitly; for the f64 code the same specification is checked by an independent geometric oracle on the real solver.",
         "design_ref": "DESIGN.md §6 C01",
         "note": "The f64 residual code is tied to the model by corr-kernels (all kinds, all aliasing patterns); the geometric oracle (harness/src/geom.rs) is written from the documented meaning, not from the kernels. PointArcCoincident's sweep is a known finding (F14).",
         "technique": "Lean 4 proof (sweep = filter) + kernel/trace correspondence + independent geometric oracle on the real code",
